@@ -233,3 +233,25 @@ Proof.
   all: repeat wq_step.
   all: erewrite Wq_store_windows by exact G0; rewrite !N.eqb_refl; reflexivity.
 Qed.
+
+(* basic.cancel detaches the consumer's unsettled deliveries from its tag: afterwards no unsettled delivery of the
+   channel names the tag, so a consumer started later under the same tag never has its own window released by them *)
+Lemma orphan_not_tag tag u : tag <> ""%string -> u_ctag (orphan tag u) <> tag.
+Proof.
+  intros Hne. unfold orphan. destruct (seqb (u_ctag u) tag) eqn:E; cbn.
+  - intros X. apply Hne. symmetry. exact X.
+  - intros X. apply (proj2 (seqb_spec _ _)) in X. congruence.
+Qed.
+
+Theorem cancel_detaches cfg fx s c h tag nowait s' evs :
+  tag <> ""%string ->
+  handle_method cfg fx s c h (MCancel tag nowait) = (s', evs, None) ->
+  forall u, In u (U s' c h) -> u_ctag u <> tag.
+Proof.
+  intros Hne Hm u Hu. unfold handle_method in Hm. destruct (get_chan s c h) as [ch|] eqn:Ech.
+  - destruct (find_consumer ch tag); unfold ok, refuse in Hm; [|discriminate].
+    inversion Hm; subst s'. clear Hm. rewrite U_upd_chan, !N.eqb_refl in Hu. cbn [andb] in Hu.
+    match type of Hu with In u (match ?g with _ => _ end) => destruct g as [ch1|] end; [|destruct Hu].
+    cbn in Hu. apply in_map_iff in Hu. destruct Hu as (u0 & <- & _). apply orphan_not_tag. exact Hne.
+  - inversion Hm; subst s'. unfold U in Hu. rewrite Ech in Hu. destruct Hu.
+Qed.
